@@ -548,7 +548,7 @@ func c11CheckExpr(tree *ObjectTree, o *Object, e *amlExpr, paths map[uint32]stri
 
 type c11Stats struct {
 	scopeDirectives, relocated, callsWithArgs, forwardCalls, nestedCalls, nonMinimalPkg, deferred int
-	tables, hugePkg, miscStmts, miscExprs, methodDecls                                         int
+	tables, hugePkg, miscStmts, miscExprs, methodDecls, rootScopes                             int
 }
 
 func c11Run(c c11Case) (fail *vlib.Failure, errLog string) {
